@@ -66,6 +66,7 @@ def r_bounds(ctx):
                 elif callee in acc:
                     _check_accessor(res, ctx, f, tt, I, e)
             _check_insert_like(res, ctx, f, tt, I)
+            _check_element_handles(res, ctx, f, tt, I)
     # insert-like shifts inside unsafe public functions (type unchecked, index checked inside)
     for f in ctx.fx.fn_list:
         if f.get("kind") == "AssocFn" and f.get("unsafe") and ctx.fx.fn(f["path"]) is f and f.get("vis") == "pub":
@@ -102,7 +103,8 @@ def _check_ctor(res, ctx, f, tt, I, e, info):
         return
     lp = ls[0]["path"]
     L0 = entry_len(I, ci, lp)
-    facts = e["facts"]
+    # the precondition must hold where the length is lowered (the first effect): the guard may sit in the caller or inside the constructor
+    facts = ls[0]["facts"]
     args = [a for a in e["args"][1:] if isinstance(a, Poly)]
     obl = []
     if nidx == 0:
@@ -173,6 +175,37 @@ def _check_accessor(res, ctx, f, tt, I, e):
     else:
         res.fail(fpath, role, "index < LEN is not established before the unchecked access %s; known: %s"
                  % (ci.path(), fmt_facts(e["facts"]) or "nothing"), span="%s:%s" % (f["span"]["file"], e.get("line")))
+
+
+def _check_element_handles(res, ctx, f, tt, I):
+    """an element handle built in a safe public function of the vector from a caller-controlled index refers to a slot below LEN"""
+    st = f.get("impl_self_ty", {})
+    if st.get("path") != "any_vec::AnyVec" or f.get("impl_trait"):
+        return
+    for e in I.all_effects(("ENTER",)):
+        if not (e["callee"].startswith("element::ElementPointer") and e["callee"].endswith("::new")):
+            continue
+        if len(e["args"]) < 2:
+            continue
+        ptr = e["args"][1]
+        fpath = f["path"]
+        role = "element-handle"
+        s = slot_of(ptr)
+        res.inst(sample={"entry": fpath, "element_pointer": str(ptr)[:120]}, func=fpath)
+        if s is None or s[1] is None:
+            res.fail(fpath, role, "an element handle is built from a pointer that is not `BASE + slot x stride` of this vector (%s): cannot show it refers to a live element"
+                     % (str(ptr)[:100],), span="%s:%s" % (f["span"]["file"], e.get("line")), kind="coverage-lost")
+            continue
+        if not any(isinstance(a, tuple) and a and a[0] == "param" for a in s[1].atoms()):
+            res.ok()
+            continue
+        lp = len_path_of_mem(s[0])
+        L = I.load(I.in_state[e.gid], lp, {"k": "uint"}) if lp else None
+        if L is not None and implies(e["facts"], cmp_fact("Lt", s[1], L)):
+            res.ok()
+        else:
+            res.fail(fpath, role, "an element handle for slot %s is built without index < LEN (known: %s)" % (s[1], fmt_facts(e["facts"]) or "nothing"),
+                     span="%s:%s" % (f["span"]["file"], e.get("line")))
 
 
 def _check_insert_like(res, ctx, f, tt, I):
